@@ -34,6 +34,8 @@ type c10Plan struct {
 	Conns           []c10Conn `json:"conns"`
 	// client mode
 	RespConn []string `json:"response_connection_values"`
+	RespName []string `json:"response_connection_names"`
+	NoNorm   bool     `json:"disable_header_names_normalizing"`
 	Calls    int      `json:"calls"`
 }
 
@@ -47,7 +49,9 @@ func scenC10(e *Env) func() {
 		p.Calls = e.Range(2, 6)
 		for i := 0; i < p.Calls; i++ {
 			p.RespConn = append(p.RespConn, Pick(e, "", "close", "Close", "CLOSE", "keep-alive, close", "foo, close", "keep-alive", "close, foo"))
+			p.RespName = append(p.RespName, Pick(e, "Connection", "Connection", "connection", "CONNECTION", "cOnNeCtIoN"))
 		}
+		p.NoNorm = e.Chance(30)
 		e.Sample = p
 		return func() { c10Client(e, p) }
 	}
@@ -66,7 +70,7 @@ func scenC10(e *Env) func() {
 			c.Reqs = append(c.Reqs, c10Req{
 				Proto:   Pick(e, "HTTP/1.1", "HTTP/1.1", "HTTP/1.1", "HTTP/1.0"),
 				ConnHdr: c10ConnValues[e.Int(len(c10ConnValues))],
-				Handler: Pick(e, "", "", "", "", "setclose", "header-close", "header-keepalive"),
+				Handler: Pick(e, "", "", "", "", "", "setclose", "header-close", "header-keepalive", "timeout-resp-close", "timeout-resp"),
 			})
 		}
 		p.Conns = append(p.Conns, c)
@@ -86,6 +90,23 @@ func c10Server(e *Env, p *c10Plan) {
 			ctx.Response.Header.Set("Connection", "close")
 		case "header-keepalive":
 			ctx.Response.Header.Set("Connection", "keep-alive")
+		case "timeout-resp-close":
+			// an explicit response, marked close, handed over the way a
+			// timed-out handler would
+			r := fasthttp.AcquireResponse()
+			r.SetStatusCode(200)
+			r.SetBodyString("ok")
+			r.SetConnectionClose()
+			ctx.TimeoutErrorWithResponse(r)
+			fasthttp.ReleaseResponse(r)
+			return
+		case "timeout-resp":
+			r := fasthttp.AcquireResponse()
+			r.SetStatusCode(200)
+			r.SetBodyString("ok")
+			ctx.TimeoutErrorWithResponse(r)
+			fasthttp.ReleaseResponse(r)
+			return
 		}
 		ctx.SetBodyString("ok")
 	}
@@ -131,7 +152,9 @@ func c10Conn1(e *Env, k *ServerKit, p *c10Plan, ci int, shutdownStart *time.Dura
 		if i > 0 {
 			time.Sleep(100 * time.Millisecond)
 		}
-		sentAt := time.Since(simrtEpoch())
+		// the listener is closed after Shutdown has raised the stop flag: a
+		// request sent once it is closed is served under shutdown
+		stopping := k.Ln.IsClosed()
 		if err := sc.Send([]byte(b.String()), nil); err != nil {
 			// connection already closed by the server: only legal if a shutdown is in progress
 			if *shutdownStart < 0 {
@@ -171,7 +194,9 @@ func c10Conn1(e *Env, k *ServerKit, p *c10Plan, ci int, shutdownStart *time.Dura
 			reason = "handler-setclose"
 		case r.Handler == "header-close":
 			reason = "handler-header"
-		case p.CloseOnShutdown && *shutdownStart >= 0 && sentAt > *shutdownStart:
+		case r.Handler == "timeout-resp-close":
+			reason = "handler-timeout-response-close"
+		case p.CloseOnShutdown && stopping:
 			reason = "close-on-shutdown"
 		}
 		if reason != "" && !resp.Close {
@@ -242,10 +267,11 @@ func c10Client(e *Env, p *c10Plan) {
 						e.Violation("client-reuse", "the client sent request %s on a connection whose response #%d carried Connection: %q", req.URL.Path, cl.saidClose, p.RespConn[(respIdx-1+len(p.RespConn))%len(p.RespConn)])
 					}
 					v := p.RespConn[respIdx%len(p.RespConn)]
+					name := p.RespName[respIdx%len(p.RespName)]
 					respIdx++
 					h := ""
 					if v != "" {
-						h = "Connection: " + v + "\r\n"
+						h = name + ": " + v + "\r\n"
 					}
 					if hasToken([]string{v}, "close") {
 						cl.saidClose = cl.reqs
@@ -257,7 +283,7 @@ func c10Client(e *Env, p *c10Plan) {
 		}
 	})
 	port := 50000
-	hc := &fasthttp.HostClient{Addr: "10.0.0.2:80", MaxConns: 2, Dial: func(a string) (net.Conn, error) {
+	hc := &fasthttp.HostClient{Addr: "10.0.0.2:80", MaxConns: 2, DisableHeaderNamesNormalizing: p.NoNorm, Dial: func(a string) (net.Conn, error) {
 		port++
 		return e.Net.Dial(tcpAddr("10.0.5.1", port), addr.String())
 	}}
